@@ -28,6 +28,9 @@ type envSpec struct {
 	crit        []any               // labels (string / int64); nil with critAbsent = no crit member
 	payloadText func(string) string // JWS: rewrites the base64url text of the payload before signing (line wrapping)
 	critAbsent  bool
+	// respell: "" | "labels" | "crit-entries": the protected header names (or the entries of crit) are written in another spelling of
+	// the same strings / integers: JSON \u escapes, CBOR heads longer than the shortest form. Applied last, in encode.
+	respell string
 
 	payload []byte
 
@@ -172,9 +175,23 @@ func (s *envSpec) encode(ledger *envenc.Ledger, note string) (env []byte, signin
 				l = []string{}
 			}
 			s.jSet("crit", envenc.JSONValue(l))
+			if s.respell == "crit-entries" {
+				raw := make([]string, len(l))
+				for i, x := range l {
+					raw[i] = envenc.EscapedJSONString(x)
+				}
+				s.jSet("crit", "["+strings.Join(raw, ",")+"]")
+			}
 		}
 		if i := s.jIdx("alg"); i >= 0 {
 			s.jws[i].Raw = `"` + s.declAlg.Name + `"`
+		}
+		if s.respell == "labels" {
+			for i := range s.jws {
+				if !strings.HasPrefix(s.jws[i].Name, envenc.RawNamePrefix) {
+					s.jws[i].Name = envenc.RawNamePrefix + envenc.EscapedJSONString(s.jws[i].Name)
+				}
+			}
 		}
 		parts, in, sg, ok := envenc.JWSSignText(s.jws, s.payload, s.payloadText, s.unprot, key, s.signAlg)
 		if s.jwsOuter != nil {
@@ -190,11 +207,19 @@ func (s *envSpec) encode(ledger *envenc.Ledger, note string) (env []byte, signin
 			items := make([]envenc.CB, len(s.crit))
 			for i, x := range s.crit {
 				items[i] = envenc.CLabel(x)
+				if s.respell == "crit-entries" {
+					items[i] = envenc.Widen(items[i])
+				}
 			}
 			s.cSet(envenc.CInt(2), envenc.CArray(items...))
 		}
 		if i := s.cIdx(envenc.CInt(1)); i >= 0 {
 			s.cose[i].Value = envenc.CInt(s.declAlg.COSE)
+		}
+		if s.respell == "labels" {
+			for i := range s.cose {
+				s.cose[i].Label = envenc.Widen(s.cose[i].Label)
+			}
 		}
 		parts, in, sg, ok := envenc.COSESign(s.cose, s.payload, s.unprot, key, s.signAlg)
 		if s.coseOuter != nil {
